@@ -5,7 +5,8 @@
    Part 3: the numeric side conditions of the three concrete parameter sets,
            proved by hand from exp 1 <= 3 and 1 + x <= exp x (no numeric
            tactic, so that the property theorems depend on the axioms of
-           the standard library's real numbers only). *)
+           the standard library's real numbers only).
+   Part 4: concrete values, used as non-vacuity witnesses. *)
 From Coq Require Import Reals Lra.
 From RV Require Import IR.Model.
 Open Scope R_scope.
